@@ -403,6 +403,22 @@ def d4(cx: Cx, ob: Ob) -> None:
             ob.site(f"{where(fn, ev.line)} {fn.qualname}", f"{show(ev.a)} := {show(ev.b)[:50]}")
             if ev.a[2] != col:
                 ob.violate(fn.qualname, where(fn, ev.line), f"_file_helper assigns `{show(ev.a)}`: a column other than the chosen one is changed", detail="other-column")
+            # every cell of the column goes through the conversion: a cell-dependent shortcut skips cells on which the
+            # scalar call has something to say (under strict=True it raises for '' as for any unconvertible string)
+            cell = ("item", row, col)
+            cg = [g for g in ctx.guards if g.kind == "guard" and g.line >= ctx.loops[-1].line and any(x == cell for x in subterms(g.a))]
+            if cg:
+                path_atoms_ = [g.a for g in ctx.guards if g.kind == "guard" and g.line >= ctx.loops[-1].line] + [t_ for t_ in s.syn.get(cg[0].line, ()) if isinstance(t_, tuple)]
+                if any(a == ("param", "strict") or any(x == ("param", "strict") for x in subterms(a)) for a in path_atoms_):
+                    ob.undecide(f"_file_helper converts a cell only when `{show(cg[0].a)[:40]}` or strict: that skipped cells convert to themselves in the non-strict modes is not decided")
+                else:
+                    ob.violate(
+                        fn.qualname,
+                        where(fn, ev.line),
+                        f"_file_helper converts a cell only when `{'' if cg[0].b else 'not '}{show(cg[0].a)[:50]}`: skipped cells never reach the conversion, so a file_* call with strict=True succeeds on a file whose cell makes the scalar call raise",
+                        witness="file_compress(path, 0, strict=True) with an empty cell: the scalar compress('', strict=True) raises CompressionError, the file is rewritten silently",
+                        detail="conditional-conversion",
+                    )
             v = ev.b
             inner = v[1][0] if op(v) == "or" else v[3] if op(v) == "ifexp" else v
             calls = [c for c in subterms(v) if op(c) == "call" and c[1] == func]
